@@ -576,8 +576,34 @@ def split_rules(ctx):
         from ..terms import PHI_GUARD
         Q, R = r[1]
         low = lambda bits_: mk("Sub", mk("Shl", const(1), bits_), const(1))
-        if Q[0] == "op" and Q[1] == "Shr" and Q[2][1] == br and R[0] == "op" and R[1] == "BitAnd" and set(map(repr, R[2])) == {repr(Q[2][0]), repr(low(br))}:
+
+        def is_lowmask(m_, bits_, total_only=False):
+            """m_ is the mask of the low `bits_` bits: (1 << bits) - 1 (valid for bits < 64) or the branch-free u64::MAX >> (64 - bits)
+            (valid for 1 <= bits <= 64)"""
+            if m_[0] == "op" and m_[1] == "Shr" and len(m_[2]) == 2 and m_[2][0] in (const(2 ** 64 - 1),) + tuple(x for x in (m_[2][0],) if x[0] == "call" and x[1].endswith("max_value")) \
+                    and linear_eq(m_[2][1], mk("Sub", const(64), bits_)):
+                return True
+            if total_only:
+                return False
+            return m_[0] == "op" and m_[1] == "Sub" and m_[2][1] == const(1) and m_[2][0][0] == "op" and m_[2][0][1] == "Shl" and m_[2][0][2][0] == const(1) and linear_eq(m_[2][0][2][1], bits_)
+        def rest_after(R_, clean_):
+            """R_ = clean_ & m (BitAnd is kept flat: the factors of clean_ appear among R_'s): returns m or None"""
+            if not (R_[0] == "op" and R_[1] == "BitAnd"):
+                return None
+            cargs = list(clean_[2]) if (clean_[0] == "op" and clean_[1] == "BitAnd") else [clean_]
+            rargs = list(R_[2])
+            for c_ in cargs:
+                if c_ in rargs:
+                    rargs.remove(c_)
+                else:
+                    return None
+            return rargs[0] if len(rargs) == 1 else None
+        m_r = rest_after(R, Q[2][0]) if (Q[0] == "op" and Q[1] == "Shr" and len(Q[2]) == 2) else None
+        if m_r is not None and Q[2][1] == br and is_lowmask(m_r, br):
             clean = Q[2][0]
+            # branch-free: clean = h & (u64::MAX >> (64 - (q + r))) keeps everything when q + r = 64, so no case split is needed
+            if clean[0] == "op" and clean[1] == "BitAnd" and len(clean[2]) == 2 and h in clean[2] and is_lowmask([x for x in clean[2] if x != h][0], used, total_only=True):
+                okr = mask_form_ok = True
             g = PHI_GUARD.get(repr(clean)) if clean[0] == "phi" else None
             if g is not None:
                 c_, a_t, a_f = g
